@@ -314,15 +314,16 @@ def lessItem (dirs : List Int) (a b : SItem) : Bool :=
   | some r => r
   | none => lessVals a.vals b.vals
 
+/-- `Count++` / `Count--` -/
+def delta (retr : Bool) : Int := if retr then -1 else 1
+
 /-- Get + Count± + ReplaceOrInsert/Delete on the tree -/
 def bump (less : SItem → SItem → Bool) (x : SItem) (retr : Bool) : List SItem → List SItem
   | [] => if retr then [] else [{ x with count := 1 }]
   | y :: ys =>
     if less x y then (if retr then y :: ys else { x with count := 1 } :: y :: ys)
     else if less y x then y :: bump less x retr ys
-    else
-      let c := if retr then y.count - 1 else y.count + 1
-      if c > 0 then { y with count := c } :: ys else ys
+    else if y.count + delta retr > 0 then { y with count := y.count + delta retr } :: ys else ys
 
 /-- count of the tree item equal to `x` (0 if absent) -/
 def treeCount (less : SItem → SItem → Bool) (x : SItem) : List SItem → Int
